@@ -25,7 +25,9 @@ CLAIMED = {
              "symbolically executed from the real source; the documented accept/reject ranges (parsed from "
              "docs/environment_variables.rst) are proved for ALL integer settings and ALL pre-states of the module "
              "globals (history independence), not just -5..45. The DECIMAL arithmetic clause of the property is not "
-             "covered (DuckDB semantics, floats).",
+             "proved (DuckDB semantics, floats); it is sampled by one bounded obligation: Number values loaded from "
+             "float64 and text DataFrame columns under 5 valid settings are stored as the decimal rounding of the input "
+             "at the configured scale and SUM over them is exact.",
         note="Assumes os.getenv / int(str) contracts, mathematical ints; DuckDB DECIMAL rounding/exactness and the "
              "float conversion on fetch (_round_significant) are outside the encoding and stay unchecked.",
         technique="symbolic execution of real Python source to per-path VCs, discharged by z3/cvc5; native replay",
